@@ -56,6 +56,10 @@ def opts_kwargs(o):
 def deep_eq(a, b, path=""):
     """Independent structural equality of two library objects; returns None or a description of the first difference."""
     if isinstance(a, Mapping) and isinstance(b, Mapping):
+        import stix2.base
+        if isinstance(a, stix2.base._STIXBase) and isinstance(b, stix2.base._STIXBase) and type(a) is not type(b):
+            # "an object of the same class": also what it contains (a 2.0 member of a 2.1 bundle stays of its 2.0 class)
+            return "%s: class %s.%s vs %s.%s" % (path, type(a).__module__, type(a).__name__, type(b).__module__, type(b).__name__)
         ka, kb = set(a.keys()), set(b.keys())
         if ka != kb:
             return "%s: keys differ (%s)" % (path, sorted(ka ^ kb))
@@ -252,6 +256,17 @@ def build(ctx, version, o, route, rng):
                 return stix2.parse(json.dumps(o), allow_custom=True)
             cls = cls_for(version, o["type"])
             kw = native.to_native(version, o, rng, over_precise=True)
+            if o["type"] == "bundle" and isinstance(kw.get("objects"), list) and rng.random() < 0.6:
+                # members as library objects, each of its own version's class (read back from the text they are dictionaries again)
+                members = []
+                for m_ in kw["objects"]:
+                    try:
+                        pm = stix2.parse(json.loads(json.dumps(m_)), allow_custom=True)
+                        members.append(pm if not isinstance(pm, dict) and rng.random() < 0.8 else m_)
+                    except Exception:
+                        members.append(m_)
+                kw["objects"] = members
+                ctx.count("bundles_with_library_object_members")
             if rng.random() < 0.25:
                 # leave what the library supplies from the clock (created / modified / valid_from ...) to the library
                 tbl = M.model(version).types.get(o["type"], {}).get("by_name", {})
@@ -374,7 +389,7 @@ def wl_custom(ctx, rng, i):
             o = gcustom.file_with_ext(g)
         elif kind == 4 and ver == "2.0":
             o = gcustom.observed20_with_sensor(g)
-        elif kind == 5 and i % 2 == 0 and ver == "2.1":
+        elif kind == 5 and (i // 11) % 2 == 0 and ver == "2.1":
             # a 2.1 bundle may carry 2.0 objects next to 2.1 ones: each member keeps its own version's class
             g20 = ObjGen(rng, "2.0", hostile=True, ts_max_digits=6)
             members = [g20.make(rng.choice(["identity", "malware", "indicator", "relationship"]), "random"), g.make("identity", "random"),
@@ -395,7 +410,10 @@ def wl_custom(ctx, rng, i):
     except KeyError:
         ctx.skip("kind not available for this version")
         return
-    if special == "marking-route":
+    if kind == 5 and o.get("type") == "bundle":
+        obj = build(ctx, ver, o, "parse" if (i // 22) % 2 else "constructor", rng)
+        ctx.count("mixed_or_custom_member_bundles")
+    elif special == "marking-route":
         obj = build(ctx, ver, o, "parse" if (i // 11) % 2 else "constructor", rng)
     elif special and i % 3:
         obj = build_special(ctx, ver, o, special, rng)
